@@ -892,6 +892,49 @@ impl LiveActor {
     pub fn verif_slot(&self, namespace: &NamespaceId, peer: &PublicKey) -> Option<(u8, bool)> {
         self.state.verif_slot(namespace, peer)
     }
+    /// The `replica_events_rx` arm of the actor loop.
+    pub async fn verif_replica_event(&mut self, event: crate::Event) -> Result<()> {
+        self.on_replica_event(event).await
+    }
+    /// The `download_tasks` arm of the actor loop: the task started for `(namespace, hash)` reports.
+    pub async fn verif_download_ready(&mut self, namespace: NamespaceId, hash: Hash, ok: bool) {
+        let res = if ok {
+            Ok(())
+        } else {
+            Err(anyhow::anyhow!("download failed"))
+        };
+        self.on_download_ready(namespace, hash, res).await
+    }
+    /// `on_neighbor_content_ready`
+    pub async fn verif_neighbor_content_ready(
+        &mut self,
+        namespace: NamespaceId,
+        node: PublicKey,
+        hash: Hash,
+    ) {
+        self.on_neighbor_content_ready(namespace, node, hash).await
+    }
+    /// Register an event subscriber (the `ToLiveActor::Subscribe` arm of the actor loop).
+    pub fn verif_subscribe(&mut self, namespace: NamespaceId, sender: async_channel::Sender<Event>) {
+        self.subscribers.subscribe(namespace, sender);
+    }
+    /// (queued hashes with the documents waiting for each, missing hashes), both sorted.
+    pub fn verif_downloads(&self) -> (Vec<(Hash, Vec<NamespaceId>)>, Vec<Hash>) {
+        let mut queued: Vec<(Hash, Vec<NamespaceId>)> = self
+            .queued_hashes
+            .by_hash
+            .iter()
+            .map(|(h, s)| {
+                let mut v: Vec<NamespaceId> = s.iter().copied().collect();
+                v.sort();
+                (*h, v)
+            })
+            .collect();
+        queued.sort();
+        let mut missing: Vec<Hash> = self.missing_hashes.iter().copied().collect();
+        missing.sort();
+        (queued, missing)
+    }
 }
 
 /// Event emitted when a sync operation completes
